@@ -23,6 +23,40 @@ MUTANTS = [
      "            result[(u, v)] = max(edge_weight[(u, v)], max_desc[cv], max_anc[cu])", "            result[(u, v)] = max(edge_weight[(u, v)], max_desc[cv], max_anc[cu] if cu != cv else 0.0)", ["C17"]),
     ("c17_antichain_visited", "flowpaths/stdag.py",
      "                    elif (minFlow[u][v] == demand[(u, v)] \n                        and demand[(u, v)] >= 1 ", "                    elif (minFlow[u][v] == demand[(u, v)] \n                        and demand[(u, v)] >= 2 ", ["C17"]),
+    ("c06_idom_wrong_endpoint", "flowpaths/utils/safetypathcoverscycles.py",
+     "        t_idom = find_idom(adj_dict    , v,   G.sink)", "        t_idom = find_idom(adj_dict    , u,   G.sink)", ["C06"]),
+    ("c06_multiplicity_plus_one", "flowpaths/stdigraph.py",
+     "sequence_function[condensation_expanded_edge][:edge_multiplicity]", "sequence_function[condensation_expanded_edge][:edge_multiplicity + 1]", ["C06"]),
+    ("c06_no_gap_protection", "flowpaths/abstractwalkmodeldigraph.py",
+     "                if True or end_prev != start_next:", "                if end_prev != start_next:", ["C06"]),
+    ("c06_scc_keep_two", "flowpaths/stdigraph.py",
+     "sequence_function[condensation_expanded_edge] = sequence_function[condensation_expanded_edge][:1]", "sequence_function[condensation_expanded_edge] = sequence_function[condensation_expanded_edge][:2]", ["C06"]),
+    ("c06_dag_safe_path_outdeg", "flowpaths/utils/safetypathcovers.py",
+     "        while G.out_degree(v) == 1:", "        while G.out_degree(v) >= 1 and G.in_degree(v) == 1:", ["C06"]),
+    ("c06_bridges_skip_restore", "flowpaths/utils/safetypathcovers.py",
+     "        adj_dict[u].append(v)  #reinsert removed edges\n\n    return bridges", "        if i % 3 != 2:\n            adj_dict[u].append(v)\n\n    return bridges", ["C06"]),
+    ("c06_flow_excess_sign", "flowpaths/utils/safetyflowdecomp.py",
+     "                if inexact_excess + rightdiff <= 0:", "                if inexact_excess + rightdiff < 0:", ["C06"]),
+    ("c06_protect_or_to_and", "flowpaths/abstractwalkmodeldigraph.py",
+     "                if (u in self.G.nodes_reachable(last_node)) or (v in self.G.nodes_reaching(first_node)):", "                if (u in self.G.nodes_reachable(last_node)) and (v in self.G.nodes_reaching(first_node)):", ["C06"]),
+    ("c20_int_weight", "flowpaths/utils/graphutils.py",
+     "            w = float(w_str)", "            w = float(int(float(w_str))) if float(w_str) > 2 else float(w_str)", ["C20"]),
+    ("c20_no_dedupe", "flowpaths/utils/graphutils.py",
+     "                if seq_key not in subpaths_seen:", "                if seq_key not in subpaths_seen or len(seq_key) == 2:", ["C20"]),
+    ("c20_accept_4tok", "flowpaths/utils/graphutils.py",
+     "        if len(elements) != 3:", "        if len(elements) < 3:\n            continue\n        elements = elements[:3]\n        if False:", ["C20"]),
+    ("c20_constraint_check_skips_last", "flowpaths/utils/graphutils.py",
+     "        for (u, v) in subpath:\n            if not G.has_edge(u, v):", "        for (u, v) in subpath[:-1]:\n            if not G.has_edge(u, v):", ["C20"]),
+    ("c20_block_split", "flowpaths/utils/graphutils.py",
+     "        while j < n_lines and not lines[j].lstrip().startswith('#'):", "        while j < n_lines and not lines[j].lstrip().startswith('#') and (lines[j].strip() or j < i + 3):", ["C20"]),
+    ("c12_mccormick_c", "flowpaths/utils/solverwrapper.py",
+     "        self.add_constraint(product_var >= continuous_var - ub * (1 - binary_var), name=name + \"_d\")", "        self.add_constraint(product_var >= continuous_var - 2 * ub * (1 - binary_var) - 1, name=name + \"_d\")", ["C12"]),
+    ("c12_objective_not_reset", "flowpaths/utils/solverwrapper.py",
+     "                np.full(self.numVariables, 0, dtype=np.float64),", "                np.full(self.numVariables, 0, dtype=np.float64) if self.numVariables < 3 else np.asarray(self.getLp().col_cost_, dtype=np.float64),", ["C12"]),
+    ("c12_bits_floor", "flowpaths/utils/solverwrapper.py",
+     "        num_bits = ceil(log2(ub + 1))", "        num_bits = max(1, ceil(log2(ub + 1)) - (1 if ub > 40 else 0))", ["C12"]),
+    ("c12_fix_var_lb_only", "flowpaths/utils/solverwrapper.py",
+     "                    self.solver.changeColsBounds(len(idxs), idxs, vals, vals)", "                    self.solver.changeColsBounds(len(idxs), idxs, vals, np.maximum(vals, 1.0))", ["C12"]),
 ]
 
 
